@@ -8,6 +8,7 @@ all wrappers are suspended, so oracles may call the library without re-entering 
 from __future__ import annotations
 
 import functools
+import inspect
 import hashlib
 import json
 import os
@@ -54,12 +55,25 @@ class Call:
 
 
 def _make_wrapper(orig, name, post, pre=None):
+    try:
+        sig = inspect.signature(orig)
+    except (TypeError, ValueError):
+        sig = None
+
     @functools.wraps(orig)
     def wrapper(*args, **kwargs):
         st = STATE
         if st.suspended or st.ctx is None:
             return orig(*args, **kwargs)
-        call = Call(name, args, kwargs, st.depth, orig)
+        margs, mkwargs = args, kwargs
+        if kwargs and sig is not None:
+            # the monitors see keyword arguments of positional parameters in their positional slots
+            try:
+                ba = sig.bind(*args, **kwargs)
+                margs, mkwargs = ba.args, ba.kwargs
+            except TypeError:
+                pass
+        call = Call(name, margs, mkwargs, st.depth, orig)
         st.depth += 1
         try:
             if pre is not None:
